@@ -262,49 +262,43 @@ func allCombos() []combo {
 	return out
 }
 
-// constant operand for `x op= c`; includes the values the compiler special-cases (0, 1, -1, powers of two)
-func constFor(r *vh.Rng, t *typ, op string) string {
+// constant operand for `x op= c`: a plain one (the general closure) or one of the values the compiler special-cases
+// (0, 1, -1, powers of two: no-op / negation / shift shortcuts)
+func constFor(r *vh.Rng, t *typ, op string, special bool) string {
 	signed := t.cat == "int"
-	var cs []string
+	var plain, spec, specSigned, plainSigned []string
 	switch t.cat {
 	case "float":
-		cs = []string{"1", "2", "0.5", "1.5", "3", "-1", "8", "-2.25"}
+		plain, spec = []string{"1.5", "3", "-2.25", "0.5", "7"}, []string{"1", "2", "-1", "8"}
 		if op != "/=" {
-			cs = append(cs, "0")
+			spec = append(spec, "0")
 		}
-		return pick(r, cs)
 	case "complex":
-		cs = []string{"1", "2", "(1+2i)", "0.5i", "-1", "(3-1i)"}
+		plain, spec = []string{"(1+2i)", "0.5i", "(3-1i)", "3"}, []string{"1", "2", "-1"}
 		if op != "/=" {
-			cs = append(cs, "0")
+			spec = append(spec, "0")
 		}
-		return pick(r, cs)
-	}
-	switch op {
-	case "+=", "-=":
-		cs = []string{"0", "1", "2", "3", "7", "100"}
-		if signed {
-			cs = append(cs, "-1", "-8")
-		}
-	case "*=":
-		cs = []string{"0", "1", "2", "3", "8", "5"}
-		if signed {
-			cs = append(cs, "-1", "-3")
-		}
-	case "/=", "%=":
-		cs = []string{"1", "2", "3", "8", "7", "16", "64"}
-		if signed {
-			cs = append(cs, "-1", "-8", "-3")
-		}
-	case "<<=", ">>=":
-		cs = []string{"0", "1", "3", "7", "9", "33", "64"}
 	default:
-		cs = []string{"0", "1", "3", "0x55", "0x7f", "6"}
+		switch op {
+		case "+=", "-=":
+			plain, spec, plainSigned, specSigned = []string{"3", "7", "100"}, []string{"0", "1", "2"}, []string{"-5"}, []string{"-1", "-8"}
+		case "*=":
+			plain, spec, plainSigned, specSigned = []string{"3", "5", "7"}, []string{"0", "1", "2", "8"}, []string{"-3"}, []string{"-1"}
+		case "/=", "%=":
+			plain, spec, plainSigned, specSigned = []string{"3", "7", "10"}, []string{"1", "2", "8", "16", "64"}, []string{"-3"}, []string{"-1", "-8"}
+		case "<<=", ">>=":
+			plain, spec = []string{"2", "3", "5"}, []string{"0", "1", "7", "9", "33", "64"}
+		default:
+			plain, spec, plainSigned, specSigned = []string{"3", "0x55", "6", "0x7e"}, []string{"0", "1", "0x7f"}, []string{"-16", "-86"}, []string{"-1"}
+		}
 		if signed {
-			cs = append(cs, "-1", "-16")
+			plain, spec = append(plain, plainSigned...), append(spec, specSigned...)
 		}
 	}
-	return pick(r, cs)
+	if special {
+		return pick(r, spec)
+	}
+	return pick(r, plain)
 }
 
 type sweepVars struct {
@@ -339,35 +333,38 @@ func (g *gen) mxSweep(c combo, sv *sweepVars) {
 		form = "var"
 	}
 	kind := fmt.Sprintf("mx:op:%s:%s:%s:%s:depth%d", c.op, t.gm, form, storage, c.depth)
-	// known start value
-	init := litOf(g.r, t)
-	g.add(&step{Src: fmt.Sprintf("%s = %s", sv.x.gm, init), GoBody: fmt.Sprintf("%s = %s", sv.x.goNm, init), Model: []string{"SNop"}, Kind: kind})
-	var stmt string
+	var stmts []string
 	switch {
 	case c.op == "++" || c.op == "--":
-		stmt = sv.x.gm + c.op
+		stmts = []string{sv.x.gm + c.op}
 	case !c.expr:
-		stmt = fmt.Sprintf("%s %s %s", sv.x.gm, c.op, constFor(g.r, t, c.op))
+		// a plain constant and a special-cased one
+		stmts = []string{fmt.Sprintf("%s %s %s", sv.x.gm, c.op, constFor(g.r, t, c.op, false)), fmt.Sprintf("%s %s %s", sv.x.gm, c.op, constFor(g.r, t, c.op, true))}
 	case c.op == "<<=" || c.op == ">>=":
-		stmt = fmt.Sprintf("%s %s %s", sv.x.gm, c.op, sv.sh.gm)
+		stmts = []string{fmt.Sprintf("%s %s %s", sv.x.gm, c.op, sv.sh.gm)}
 	default:
-		stmt = fmt.Sprintf("%s %s %s", sv.x.gm, c.op, sv.o.gm)
+		stmts = []string{fmt.Sprintf("%s %s %s", sv.x.gm, c.op, sv.o.gm)}
 	}
-	switch {
-	case c.depth == 0:
-		g.add(&step{Src: stmt, GoBody: g.goText(stmt), Model: []string{"SNop"}, Kind: kind})
-	case g.r.Chance(1, 3):
-		src := nest(g.r, c.depth, stmt, true)
-		g.add(&step{Src: src, GoBody: g.goText(src), Model: []string{"SNop"}, Kind: kind})
-	default:
-		fid := g.id()
-		fname := fmt.Sprintf("m_%d", fid)
-		g.h.names[fid] = fname
-		src := fmt.Sprintf("func %s() { %s }", fname, nest(g.r, c.depth-1, stmt, false))
-		g.add(&step{Src: src, GoDecl: g.goText(src), Decl: []int{fid}, Kind: kind, Model: []string{fmt.Sprintf("SFunc %d 0 true", fid)}})
-		g.add(&step{Src: fname + "()", GoBody: g.goText(fname + "()"), Model: []string{"SNop"}, Kind: kind})
+	for _, stmt := range stmts {
+		// known start value
+		init := litOf(g.r, t)
+		g.add(&step{Src: fmt.Sprintf("%s = %s", sv.x.gm, init), GoBody: fmt.Sprintf("%s = %s", sv.x.goNm, init), Model: []string{"SNop"}, Kind: kind})
+		switch {
+		case c.depth == 0:
+			g.add(&step{Src: stmt, GoBody: g.goText(stmt), Model: []string{"SNop"}, Kind: kind})
+		case g.r.Chance(1, 3):
+			src := nest(g.r, c.depth, stmt, true)
+			g.add(&step{Src: src, GoBody: g.goText(src), Model: []string{"SNop"}, Kind: kind})
+		default:
+			fid := g.id()
+			fname := fmt.Sprintf("m_%d", fid)
+			g.h.names[fid] = fname
+			src := fmt.Sprintf("func %s() { %s }", fname, nest(g.r, c.depth-1, stmt, false))
+			g.add(&step{Src: src, GoDecl: g.goText(src), Decl: []int{fid}, Kind: kind, Model: []string{fmt.Sprintf("SFunc %d 0 true", fid)}})
+			g.add(&step{Src: fname + "()", GoBody: g.goText(fname + "()"), Model: []string{"SNop"}, Kind: kind})
+		}
+		g.mxRead(sv.x.gm, kind)
 	}
-	g.mxRead(sv.x.gm, kind)
 }
 
 // ---------------------------------------------------------------- the history
